@@ -36,9 +36,9 @@ P = "C05"
 MUTATORS = {"setdefault", "pop", "popitem", "clear", "update", "__setitem__", "__delitem__"}
 
 
-def rule_registry(program, ctx):
-    rid = ctx.rule(
-        "C05.registry",
+def rule_registry(program, ctx, prop=P, rid="C05.registry"):
+    ctx.rule(
+        rid,
         "every write to `.clients` (subscript assignment/deletion, setdefault/pop/clear/update, rebinding) or to a per-client dict obtained "
         "from it happens in BaseStorage.subscribe / unsubscribe / __init__; in subscribe the insertion `subs[sub_id] = sub` comes after "
         "`sub.start()`; other modules only read the registry",
@@ -70,14 +70,14 @@ def rule_registry(program, ctx):
                 if q in owners:
                     ctx.ok(rid, n, f"{hit} in {q}")
                 else:
-                    ctx.bad(finding_at(P, rid, n, f"{q} {hit}: the registry of open subscriptions is changed outside subscribe/unsubscribe"))
+                    ctx.bad(finding_at(prop, rid, n, f"{q} {hit}: the registry of open subscriptions is changed outside subscribe/unsubscribe"))
     sub = program.func("nostr_relay.storage.base:BaseStorage.subscribe")
     cfg = cfg_of(sub)
     ins = cfg.stmt_nodes(lambda s: isinstance(s, ast.Assign) and any(isinstance(t, ast.Subscript) and "sub_id" in ast.unparse(t.slice) for t in s.targets), kinds=("stmt",))
     starts = {n: set(NORMAL) for n in cfg.stmt_nodes(lambda s: any(isinstance(c.func, ast.Attribute) and c.func.attr == "start" for c in own_calls(s)), kinds=("stmt",))}
     for i in ins:
         if must_pass(cfg, starts, [i]):
-            ctx.bad(finding_at(P, rid, cfg.ast_of(i), "a subscription is registered before/without start(): it receives live events although its stored query never runs (no EOSE)"))
+            ctx.bad(finding_at(prop, rid, cfg.ast_of(i), "a subscription is registered before/without start(): it receives live events although its stored query never runs (no EOSE)"))
         else:
             ctx.ok(rid, cfg.ast_of(i), "registered after sub.start()")
     # WeakKeyDictionary keyed by the per-connection object
@@ -86,7 +86,7 @@ def rule_registry(program, ctx):
         ctx.ok(rid, init, "registry = WeakKeyDictionary keyed by the connection's ClientID object")
     ci = program.cls("nostr_relay.util:ClientID")
     if "__eq__" in ci.methods and not any(isinstance(c, ast.Compare) and isinstance(c.ops[0], ast.Is) for c in ast.walk(ci.methods["__eq__"])):
-        ctx.bad(finding_func(P, rid, ci.methods["__eq__"], "ClientID has value equality: two connections with colliding id strings share one registry entry", text="def __eq__(...)"))
+        ctx.bad(finding_func(prop, rid, ci.methods["__eq__"], "ClientID has value equality: two connections with colliding id strings share one registry entry", text="def __eq__(...)"))
     else:
         ctx.ok(rid, ci.node, "ClientID keeps identity equality")
 
@@ -302,6 +302,9 @@ def rule_coverage(program, ctx):
 
 
 def run(program, ctx):
+    from ..lib import rule_awaited
+
+    rule_awaited(program, ctx, P, ANCHORS)
     rule_registry(program, ctx)
     rule_snapshot(program, ctx)
     rule_once(program, ctx)
@@ -314,6 +317,8 @@ def run(program, ctx):
     ridn = ctx.rule("C05.norm", "ids/authors of a filter are normalised by the hex validator (it hands on the lower-cased, checked id): the live matcher compares them "
                     "case-sensitively while the SQL matcher does not, so un-normalised spellings make live and stored matching disagree", floor=1)
     c01._ids_are_hex_ok(program, ctx, ridn, P, lower=True)
+    c01.rule_tagindex(program, ctx, prop=P, rid="C05.tagindex")
+    c13.rule_subid(program, ctx, prop=P, rid="C05.subid")
     ctx.not_decided += [
         "exactly-once delivery and absence of loss under all interleavings of tasks and connections (schedule exploration is another family)",
         "check_event's set-of-booleans logic being equivalent to the stored predicates for every event (e.g. delegated authors)",
